@@ -39,6 +39,12 @@ static void s_put_uri(const struct aws_uri *u) {
     s_put_view("query", &u->uri_str, aws_uri_query_string(u));
     s_put_view("path_and_query", &u->uri_str, aws_uri_path_and_query(u));
     printf("P port=%u\n", (unsigned)aws_uri_port(u));
+    /* the object's own bookkeeping: size tag, the allocator it was given, and an owned copy of the text */
+    if (u->self_size != sizeof(struct aws_uri) || u->allocator != hc_allocator() ||
+        (u->uri_str.buffer != NULL && u->uri_str.allocator != hc_allocator()) || u->uri_str.len > u->uri_str.capacity) {
+        printf("P MONITOR aws_uri-bookkeeping self_size=%zu allocator_ok=%d uri_str_allocator_ok=%d\n", u->self_size,
+               u->allocator == hc_allocator(), u->uri_str.allocator == hc_allocator());
+    }
     /* an accessor must hand out the field itself */
     if (aws_uri_scheme(u) != &u->scheme || aws_uri_authority(u) != &u->authority || aws_uri_host_name(u) != &u->host_name ||
         aws_uri_path(u) != &u->path || aws_uri_query_string(u) != &u->query_string ||
